@@ -18,6 +18,9 @@ Translated (anything unsupported inside them is a *translation problem*, never s
                                    branch); emitted as "does the table called table_name still get on_alignment".  The copy
                                    must be what the loop hands on (`**<copy>` / `conditions=<copy>`) and must not be changed
                                    in any other way, else translation problem
+  mixinChildPattern / mixinChildColumn
+                                   the `name=f"..."` pattern and the `column="..."` of the `_get_feature_by_id` call in the mixin's
+                                   get_feature_children (which column is searched for which LIKE pattern)
   subsetStart / subsetStop         ``start = <expr>`` / ``stop = <expr>`` at the top of subset() (normalisation of the bounds)
   attrWrapRecords / attrWrapCount  the test of ``if <test>: kwargs["attributes"] = f'%{...}%'`` in _get_records_matching and
                                    in num_matches, as a function of the attributes value
@@ -255,6 +258,41 @@ def _keep_oa(fn):
     raise TranslationError(f"{fn.name}: `{src(pops[0])}` is not directly under an if / else of the table loop")
 
 
+def _children_call(fn):
+    calls = [c for c in ast.walk(fn) if isinstance(c, ast.Call) and src(c.func) == "self._get_feature_by_id"]
+    if len(calls) != 1:
+        raise TranslationError(f"{fn.name}: expected one self._get_feature_by_id call, found {len(calls)}")
+    kw = {k.arg: k.value for k in calls[0].keywords}
+    if "name" not in kw or "column" not in kw:
+        raise TranslationError(f"{fn.name}: _get_feature_by_id is called without name= / column=")
+    return kw
+
+
+def _fstring(v, var):
+    """Lean String term of an f-string over the single variable `var`"""
+    if isinstance(v, ast.Name) and v.id == var:
+        return var
+    if isinstance(v, ast.Constant) and isinstance(v.value, str):
+        return json_str(v.value)
+    if not isinstance(v, ast.JoinedStr):
+        raise TranslationError(f"unsupported pattern `{src(v)}`")
+    parts = []
+    for x in v.values:
+        if isinstance(x, ast.Constant) and isinstance(x.value, str):
+            parts.append(json_str(x.value))
+        elif isinstance(x, ast.FormattedValue) and isinstance(x.value, ast.Name) and x.value.id == var and x.conversion == -1 and x.format_spec is None:
+            parts.append(var)
+        else:
+            raise TranslationError(f"unsupported piece in `{src(v)}`")
+    return "(" + " ++ ".join(parts) + ")" if parts else '""'
+
+
+def json_str(t):
+    if any(c in t for c in '"\\') or not t.isascii() or not t.isprintable():
+        raise TranslationError(f"unsupported string constant {t!r}")
+    return '"' + t + '"'
+
+
 def translate(path: Path):
     tree = ast.parse(Path(path).read_text())
     problems, defs, seen = [], [], {}
@@ -290,6 +328,19 @@ def translate(path: Path):
 
     for nm, fname in (("featuresKeepOa", "get_features_matching"), ("recordsKeepOa", "get_records_matching"), ("countKeepOa", "num_matches")):
         emit(nm, f"{fname}: the table called table_name is still asked for on_alignment", "(table_name : String) : Bool", keep(fname))
+
+    def childpat():
+        kw = _children_call(_func(tree, "get_feature_children", M))
+        return _fstring(kw["name"], "name"), src(kw["name"])
+
+    def childcol():
+        kw = _children_call(_func(tree, "get_feature_children", M))
+        if not (isinstance(kw["column"], ast.Constant) and isinstance(kw["column"].value, str)):
+            raise TranslationError(f"get_feature_children: column=`{src(kw['column'])}`")
+        return json_str(kw["column"].value), src(kw["column"])
+
+    emit("mixinChildPattern", "get_feature_children (mixin): the value the searched column is compared with", "(name : String) : String", childpat)
+    emit("mixinChildColumn", "get_feature_children (mixin): the searched column", ": String", childcol)
 
     def bound(name):
         def make():
